@@ -255,16 +255,22 @@ def tree_case(ctx, n, items, ybits, prune_p, base, tag, canonical=False, force=N
             return (';'.join(f'{k}={v}' for k, v in d.items()) or '-') + ' ' + ('.'.join(map(str, ex)) or '-')
         # HashmapAugE: ahme_root$1 root:^(HashmapAug n X Y) extra:Y  /  ahme_empty$0 extra:Y  (the top-level extra is read since f2933e1)
         te = (len(leaves) * 5 + 3 + n) % (1 << ybits)
-        tebits = format(te, f'0{ybits}b') + ('0' if xref else '')
-        cont = Builder().store_bit(1).store_ref(rc).store_bits(tebits).end_cell()
-        dag2 = dag + f'|-1,1{tebits},{root}'
-        cont0 = Builder().store_bit(0).store_bits(tebits).end_cell()
-        dag0 = dag + f'|-1,0{tebits},-'
+        # with ref-owning augmentations the TOP-LEVEL extra of the HashmapAugE owns one too: ahme_root$1 root:^.. extra:Y - its
+        # reference comes AFTER the root reference (ahme_empty$0 extra:Y: it is the only one)
+        xtop = bool(xref and base)
+        tebits = format(te, f'0{ybits}b') + (('1' if xtop else '0') if xref else '')
+        tes = f'{te}^{cells[0].hash.hex()}' if xtop else te
+        cb = Builder().store_bit(1).store_ref(rc).store_bits(tebits)
+        cont = (cb.store_ref(cells[0]) if xtop else cb).end_cell()
+        dag2 = dag + f'|-1,1{tebits},{root}' + ('.0' if xtop else '')
+        cb0 = Builder().store_bit(0).store_bits(tebits)
+        cont0 = (cb0.store_ref(cells[0]) if xtop else cb0).end_cell()
+        dag0 = dag + f'|-1,0{tebits},' + ('0' if xtop else '-')
         contx = Builder().store_bit(1).store_ref(rc).end_cell()          # extra missing: not a HashmapAugE, must raise
         ok = check('parse_hashmap_aug', lambda: parse_hashmap_aug(rc.begin_parse(), n, x, y), render, want, am)
         ok = ok and check('load_hashmap_aug', lambda: rc.begin_parse().load_hashmap_aug(n, x, y), render, want, am)
         ok = ok and check('load_hashmap_aug_e', lambda: cont.begin_parse().load_hashmap_aug_e(n, x, y), render, want, aem, cnode, dag2)
-        ok = ok and check('load_hashmap_aug_e', lambda: cont0.begin_parse().load_hashmap_aug_e(n, x, y), render, f'- {te}', aem, cnode, dag0)
+        ok = ok and check('load_hashmap_aug_e', lambda: cont0.begin_parse().load_hashmap_aug_e(n, x, y), render, f'- {tes}', aem, cnode, dag0)
         gotx = call(lambda: contx.begin_parse().load_hashmap_aug_e(n, x, y))
         ctx.count('parser:load_hashmap_aug_e:no-extra')
         ctx.expect_model(f"hmparse {dag + f'|-1,1,{root}'} {cnode} {n} {aem}", 'err' if is_err(gotx) else 'ok ' + render(gotx), tag + ':auge-no-extra')
